@@ -11,6 +11,7 @@ tokenize(text, cat) -> list of (kind, text) with kind in
 `cat` maps a character to its category code 0..15.
 """
 
+ALLOW_EOL_ON_OTHER = True
 ESC, BG, EG, MATH, ALIGN, EOL, PARAM, SUP, SUB, IGN, SPACE, LETTER, OTHER, ACTIVE, COMMENT, INVALID = range(16)
 
 import string
@@ -90,7 +91,7 @@ def tokenize(text, table, stats=None, flags=None, stream=False):
                 if cat(ch) in (SUP, EOL):
                     flags.add('hathat-decodes-to-sup-or-eol')
                 i += 2
-            if cat(ch) == EOL and ch != '\n':
+            if cat(ch) == EOL and ch != '\n' and not ALLOW_EOL_ON_OTHER:
                 flags.add('eol-category-on-other-char')
             return ch, cat(ch), i
 
@@ -145,6 +146,12 @@ def tokenize(text, table, stats=None, flags=None, stream=False):
                     out.append(('cs', 'par'))
                 elif state == 'M':
                     out.append((SPACE, ' '))
+                if stream:
+                    # (line-less reading: "the rest of the line" ends at the next newline character, whatever its category)
+                    j = line.find('\n', i)
+                    i = n if j < 0 else j + 1
+                    state = 'N'
+                    continue
                 break           # the rest of the line is discarded
             elif code == COMMENT:
                 if stream:
